@@ -1,6 +1,260 @@
-//! C18 — not built yet.
-use vcommon::Args;
+//! C18 — concurrent sends never interleave on the wire.
+//!
+//! Several root tasks send messages on one real connection; the transport's `sendmsg` answers are
+//! explorer choices (everything / 1 byte / half / Pending), task polls are scheduling choices.
 
-pub fn main(_args: &Args) -> i32 {
-    vcommon::machinery_failure("C18: check not built yet")
+use std::{os::fd::AsFd, sync::Mutex};
+
+use serde_json::json;
+use vcommon::{Args, Report};
+use zbus::{connection::Builder, zvariant::Fd, Message};
+
+use crate::{
+    explore::ExecResult,
+    sched::{finish_model_checking, run_scenario, v, SchedPlan, Totals},
+    world::{inode_of, new_fd, split_messages, Link, SockCfg, Step, World, WriteMode, GUID},
+};
+
+#[derive(Clone, Copy, Debug)]
+struct Params {
+    senders: usize,
+    per_sender: usize,
+    fd_sender: Option<usize>,
+    pending_budget: usize,
+    /// use emit_signal / call-less API instead of prebuilt messages
+    api: bool,
+}
+
+fn scenario(p: Params) -> ExecResult {
+    let mut w = World::new();
+    w.horizon = 400;
+    let link = Link::new();
+    let sock = link.end_a(SockCfg::default());
+    let conn = w
+        .complete("build", async move {
+            Builder::authenticated_socket(sock, GUID)
+                .unwrap()
+                .p2p()
+                .internal_executor(false)
+                .build()
+                .await
+                .unwrap()
+        })
+        .expect("build");
+    link.a2b.with(|c| {
+        c.write_mode = WriteMode::Choice {
+            pending_budget: p.pending_budget,
+        }
+    });
+    // messages: sender i sends per_sender messages, distinguishable by member name and body size
+    let fd = new_fd("c18");
+    let fd_ino = inode_of(&fd);
+    let mut expected: Vec<Vec<Vec<u8>>> = vec![];
+    let mut handles = vec![];
+    for i in 0..p.senders {
+        let mut msgs = vec![];
+        for j in 0..p.per_sender {
+            let body = "x".repeat(3 + 5 * i + 11 * j);
+            let m = if p.fd_sender == Some(i) && j == 0 {
+                Message::signal("/p", "a.b", format!("S{i}x{j}").as_str())
+                    .unwrap()
+                    .build(&(Fd::from(fd.as_fd()), body))
+                    .unwrap()
+            } else {
+                Message::signal("/p", "a.b", format!("S{i}x{j}").as_str())
+                    .unwrap()
+                    .build(&(body,))
+                    .unwrap()
+            };
+            msgs.push(m);
+        }
+        expected.push(msgs.iter().map(|m| m.data().bytes().to_vec()).collect());
+        let c = conn.clone();
+        let api = p.api;
+        handles.push(w.spawn(&format!("sender{i}"), async move {
+            for (j, m) in msgs.iter().enumerate() {
+                if api {
+                    c.emit_signal(None::<&str>, "/p", "a.b", format!("A{i}x{j}").as_str(), &("y".repeat(2 + 3 * i + 7 * j),))
+                        .await?;
+                } else {
+                    c.send(m).await?;
+                }
+            }
+            Ok::<(), zbus::Error>(())
+        }));
+    }
+    loop {
+        match w.step(0) {
+            Step::Ran(_) => {}
+            _ => break,
+        }
+    }
+    let mut res = ExecResult {
+        capped: w.hit_horizon,
+        steps: w.steps,
+        ..Default::default()
+    };
+    let out = link.a2b.written();
+    let (ranges, trailing) = split_messages(&out);
+    let sizes = link.a2b.with(|c| c.write_sizes.clone());
+    let wfds = link.a2b.with(|c| c.written_fds.clone());
+    w.obs(format!("writes={:?}", sizes.len()));
+    let all_done = handles.iter().all(|h| h.is_done());
+    for (i, h) in handles.iter().enumerate() {
+        match h.take() {
+            Some(Ok(())) => {}
+            Some(Err(e)) => res.violations.push(v("send-succeeds", format!("sender{i} failed: {e}")).feat("kind", "send-error")),
+            None => {
+                if !w.hit_horizon {
+                    res.violations.push(
+                        v("send-completes", format!("sender{i} never completed although the transport accepts writes; trace={:?}", w.trace))
+                            .feat("kind", "send-hang"),
+                    );
+                }
+            }
+        }
+    }
+    if all_done {
+        if trailing != 0 {
+            res.violations.push(v("whole-and-unmixed", format!("{trailing} trailing bytes do not form a message")).feat("kind", "trailing"));
+        }
+        if p.api {
+            // messages are built inside the API: identify them by member name
+            let mut per_sender: Vec<Vec<usize>> = vec![vec![]; p.senders];
+            for r in &ranges {
+                match crate::world::parse_message(&out[r.clone()]) {
+                    Ok(m) => {
+                        let mem = m.header().member().map(|m| m.to_string()).unwrap_or_default();
+                        let mut it = mem.trim_start_matches('A').split('x');
+                        let i: usize = it.next().and_then(|s| s.parse().ok()).unwrap_or(99);
+                        let j: usize = it.next().and_then(|s| s.parse().ok()).unwrap_or(99);
+                        let body: Result<(String,), _> = m.body().deserialize();
+                        let want = "y".repeat(2 + 3 * i + 7 * j);
+                        if i >= p.senders || body.as_ref().map(|b| b.0 != want).unwrap_or(true) {
+                            res.violations.push(v("whole-and-unmixed", format!("peer received a message that was never sent: member {mem}")).feat("kind", "garbled"));
+                        } else {
+                            per_sender[i].push(j);
+                        }
+                    }
+                    Err(e) => res.violations.push(v("whole-and-unmixed", format!("peer cannot parse a framed message: {e}")).feat("kind", "garbled")),
+                }
+            }
+            for (i, js) in per_sender.iter().enumerate() {
+                if *js != (0..p.per_sender).collect::<Vec<_>>() {
+                    res.violations.push(v("per-sender-order", format!("sender{i}'s messages arrived as {js:?}")).feat("kind", "order"));
+                }
+            }
+        } else {
+            let mut next = vec![0usize; p.senders];
+            let mut pos_of_fd_msg = None;
+            for r in &ranges {
+                let bytes = &out[r.clone()];
+                let mut matched = false;
+                for i in 0..p.senders {
+                    if next[i] < expected[i].len() && expected[i][next[i]] == bytes {
+                        if p.fd_sender == Some(i) && next[i] == 0 {
+                            pos_of_fd_msg = Some(r.start);
+                        }
+                        next[i] += 1;
+                        matched = true;
+                        break;
+                    }
+                }
+                if !matched {
+                    // either garbled or out of per-sender order
+                    let known = expected.iter().flatten().any(|e| e == bytes);
+                    res.violations.push(
+                        v(
+                            if known { "per-sender-order" } else { "whole-and-unmixed" },
+                            format!("peer received a {} message at offset {}", if known { "reordered" } else { "garbled" }, r.start),
+                        )
+                        .feat("kind", if known { "order" } else { "garbled" }),
+                    );
+                }
+            }
+            if next.iter().enumerate().any(|(i, n)| *n != expected[i].len()) {
+                res.violations.push(v("whole-and-unmixed", format!("not all messages arrived: per-sender counts {next:?}")).feat("kind", "missing"));
+            }
+            if let Some(i) = p.fd_sender {
+                let _ = i;
+                match pos_of_fd_msg {
+                    Some(start) => {
+                        let ok = wfds.len() == 1 && wfds[0] == (start, fd_ino);
+                        if !ok {
+                            res.violations.push(
+                                v("fds-with-first-bytes", format!("the fd message starts at offset {start}, fds were transmitted as {wfds:?} (offset, inode); expected one fd {fd_ino} with the write at {start}"))
+                                    .feat("kind", "fd-position"),
+                            );
+                        }
+                    }
+                    None => {}
+                }
+            } else if !wfds.is_empty() {
+                res.violations.push(v("fds-with-first-bytes", format!("fds transmitted although no message carries any: {wfds:?}")).feat("kind", "fd-spurious"));
+            }
+        }
+    }
+    let order: Vec<String> = ranges
+        .iter()
+        .map(|r| {
+            crate::world::parse_message(&out[r.clone()])
+                .ok()
+                .and_then(|m| m.header().member().map(|m| m.to_string()))
+                .unwrap_or_else(|| "?".into())
+        })
+        .collect();
+    w.obs(format!("wire order={order:?} trailing={trailing} write_sizes={sizes:?}"));
+    res.log = std::mem::take(&mut w.log);
+    drop(conn);
+    res
+}
+
+pub fn main(args: &Args) -> i32 {
+    let report = Report::new("C18", args.tier, args.seed, "model_checking");
+    let totals = Mutex::new(Totals::default());
+    let quick = args.tier == vcommon::Tier::Quick;
+    let scenarios: Vec<(&str, Params, Vec<Option<usize>>)> = vec![
+        (
+            "2x1-full-dfs",
+            Params { senders: 2, per_sender: 1, fd_sender: None, pending_budget: 1, api: false },
+            if quick { vec![Some(3), Some(4), Some(6), None] } else { vec![Some(4), Some(6), None] },
+        ),
+        (
+            "2x2",
+            Params { senders: 2, per_sender: 2, fd_sender: Some(1), pending_budget: 2, api: false },
+            if quick { vec![Some(2), Some(3), Some(4), Some(5)] } else { vec![Some(3), Some(4), Some(5), Some(6), Some(7)] },
+        ),
+        (
+            "3x1-fd",
+            Params { senders: 3, per_sender: 1, fd_sender: Some(0), pending_budget: 2, api: false },
+            if quick { vec![Some(2), Some(3), Some(4), Some(5)] } else { vec![Some(3), Some(4), Some(5), Some(6), Some(7)] },
+        ),
+        (
+            "2x2-api",
+            Params { senders: 2, per_sender: 2, fd_sender: None, pending_budget: 2, api: true },
+            if quick { vec![Some(2), Some(3), Some(4), Some(5)] } else { vec![Some(3), Some(4), Some(5), Some(6)] },
+        ),
+    ];
+    for (name, p, bounds) in scenarios {
+        let plan = SchedPlan {
+            bounds,
+            max_execs: args.tier.pick(3_000_000, 80_000_000),
+            time_budget_s: args.tier.pick(7.0, 200.0),
+        };
+        run_scenario(
+            &report,
+            &totals,
+            name,
+            json!({"senders": p.senders, "per_sender": p.per_sender, "fd_sender": p.fd_sender, "pending_budget": p.pending_budget, "api": p.api}),
+            &plan,
+            move || scenario(p),
+        );
+    }
+    report.assume("sendmsg answer alphabet: everything / 1 byte / half / Pending (bounded number of Pendings per execution); the transport never fails in this check (faults are C38)");
+    report.assume("interleaving granularity is one task poll");
+    finish_model_checking(
+        &report,
+        &totals,
+        "all orders of sender-task polls × all sendmsg answers (full, 1 byte, half, Pending) up to the completed deviation bound",
+    )
 }
